@@ -1081,11 +1081,30 @@ class C19(HistProp):
             v = g.val(t, 12)
             sg = StoreGen(g, t, v)
             out.append(show(['store', t, v] + sg.history(g.rng.choice([6, 15, 30]))))
+        # tree level against the heap model: exact hash-call counts and number of fresh pair nodes
+        r = g.rng
+        for _ in range(self.n(tier)):
+            tr = g.tree(r.choice([1, 2, 3, 4, 5]), r.choice([0.1, 0.3]))
+            maxg = 1 << (g.tree_depth(tr) + 2)
+            cmds = [['hcost', r.choice([1, r.randint(1, maxg), r.randint(1, maxg)]), r.choice([0, 1]), g.tree(r.choice([0, 1, 2]), 0.4)]
+                    for _ in range(r.choice([1, 3]))]
+            out.append(show(['tree', tr] + cmds))
         return out
 
     def compare(self, case, py, mo, stats):
         out = []
         bump(stats, 'kinds', kind(case[1]))
+        if case[0] == 'tree':
+            for i, c in enumerate(case[2:]):
+                p = '%d.' % i
+                bump(stats, 'ops', 'hcost')
+                a, b = py.get(p + 'hcost'), mo.get(p + 'hcost')
+                if a != b:
+                    pa, pb = (a or '').split('/'), (b or '').split('/')
+                    worse = len(pa) >= 3 and len(pb) >= 3 and pa[2].isdigit() and pb[2].isdigit() and int(pa[2]) > int(pb[2])
+                    out.append(F('prop' if worse or (len(pa) == 5 and len(pb) == 5 and (pa[1] != '0' or int(pa[4]) > int(pb[4]))) else 'corr',
+                                 'hash calls first root / second root / after write / fresh pairs: setter(%s, expand=%s)' % (c[1], c[2]), a, b))
+            return out
         if case[0] == 'store':
             for i, op in enumerate(case[3:]):
                 p = '%d.' % i
